@@ -190,10 +190,13 @@ class Sim(object):
             obj = GroupLibrary.Load(L)
             if assembled:
                 # the same library put together through the constructor and Update(): an empty library object for the
-                # scheme, filled from a freshly loaded one
+                # scheme, filled from a freshly loaded one.  The source stays in the history as an object of its own: whatever is
+                # done to the assembled library later (revisions, overwriting merges) is none of its business
                 src, obj = obj, GroupLibrary(obj.scheme)
                 obj.Update(src)
                 self.ctx.event('op:assemble')
+                if len(self.objs) <= 6:
+                    self.objs.append([L, src, [], False])
             self.objs.append([L, obj, [], False])
         except Exception as e:
             self.fail('load-raises:%s' % type(e).__name__, '%s(%s) raised %s: %s' % ('constructor + Update' if assembled else 'Load', L, type(e).__name__, e))
